@@ -37,6 +37,7 @@ type Obligation struct {
 	ScriptHash string
 	Probed     bool
 	ProbeModels []Model
+	Bounds      map[string][2]float64 // constant bounds on harness symbols found in the assumptions
 }
 
 type Interp struct {
@@ -365,8 +366,69 @@ func (in *Interp) obligation2(label string, exact, tol *Term) {
 	in.emit(ob)
 }
 
+// symBounds: constant lower/upper bounds that the assumptions put directly on harness symbols
+func (in *Interp) symBounds() map[string][2]float64 {
+	out := map[string][2]float64{}
+	has := map[string][2]bool{}
+	num := func(t *Term) (float64, bool) {
+		if !t.IsConst() {
+			return 0, false
+		}
+		switch {
+		case t.sort == SReal:
+			f, _ := t.r.Float64()
+			return f, true
+		case t.sort == SInt:
+			f, _ := new(big.Float).SetInt(t.i).Float64()
+			return f, true
+		}
+		return 0, false
+	}
+	var visit func(t *Term)
+	visit = func(t *Term) {
+		switch t.op {
+		case "and":
+			for _, a := range t.args {
+				visit(a)
+			}
+		case "fle", "flt", "sle", "slt":
+			a, b := t.args[0], t.args[1]
+			if a.op == "var" && strings.HasPrefix(a.name, "sym:") {
+				if c, ok := num(b); ok {
+					bb, hh := out[a.name], has[a.name]
+					if !hh[1] || c < bb[1] {
+						bb[1], hh[1] = c, true
+					}
+					out[a.name], has[a.name] = bb, hh
+				}
+			}
+			if b.op == "var" && strings.HasPrefix(b.name, "sym:") {
+				if c, ok := num(a); ok {
+					bb, hh := out[b.name], has[b.name]
+					if !hh[0] || c > bb[0] {
+						bb[0], hh[0] = c, true
+					}
+					out[b.name], has[b.name] = bb, hh
+				}
+			}
+		}
+	}
+	for _, a := range in.assumes {
+		visit(a)
+	}
+	for k, hh := range has {
+		if !(hh[0] && hh[1]) {
+			delete(out, k)
+		}
+	}
+	return out
+}
+
 func (in *Interp) fillScript(ob *Obligation, q []*Term) {
 	ob.Script = in.ts.Script(q, nil)
+	if ob.Kind == "assert" {
+		ob.Bounds = in.symBounds()
+	}
 	ob.Vars = map[string]Sort{}
 	ids := map[int]struct{}{}
 	for _, a := range q {
@@ -401,6 +463,13 @@ func (in *Interp) implicitFail(what string, okCond *Term) {
 		// this harness decides its named assertions only; panics are assumed away here and are the
 		// business of its sibling harness (stated in its doc)
 		in.assume(okCond)
+		return
+	}
+	if in.summaries["HuntImplicit"] {
+		// implicit obligations of this harness are counterexample searches only (stated in its doc)
+		in.huntNext = true
+		in.obligation("no-panic:"+what, "implicit", okCond)
+		in.huntNext = false
 		return
 	}
 	in.obligation("no-panic:"+what, "implicit", okCond)
